@@ -175,7 +175,7 @@ structure MeltQuoteOk (cx : Cx) (qid : Nat) (i h : Nat) (msat : UInt64) (mpp : O
   ln : s'.2 = s.2
   id : q.id = qid ∧ q.inv = i ∧ q.hash = h ∧ q.state = .unpaid ∧ q.preimage = 0
   nonzero : msat ≠ 0
-  /-- F16: a request that will be settled internally is the mint quote's own invoice -/
+  /-- F17: a request that will be settled internally is the mint quote's own invoice -/
   own : (dbGetMintQByHash s.1 h).toBool = true → i = h
   plan : meltQuotePlan cx.cfg msat mpp (dbGetMintQByHash s.1 h).toBool = .ok (q.isMpp, q.amountMsat, q.amount)
   maxMelt : ¬ (cx.cfg.maxMelt > 0 ∧ q.amount > cx.cfg.maxMelt)
